@@ -285,6 +285,10 @@ pub fn knobs(profile: &str, thorough: bool, rng: &mut Rng) -> Knobs {
         }
         "C09" => {
             kn.adopt_p = 8;
+            // the property speaks about programs that record every stored handle: no bare
+            // adopt/unadopt on program handles (records only change together with handles)
+            set_w(&mut kn, K::Unadopt, 0);
+            set_w(&mut kn, K::Adopt, 0);
             with_weak(rng, &mut kn, false);
             if kn.shape == 0 && rng.chance(1, 2) {
                 kn.shape = 1 + rng.below(10) as u32;
